@@ -77,6 +77,9 @@ def main():
         if os.path.exists(meta):
             m = json.load(open(meta))
             props = m.get("run_checks") or [m.get("property", props[0])]
+            if m.get("neutralised_by"):
+                # a later repair of /repo made the change harmless
+                continue
         items.append(("seeded", name, patch, props))
     rows = []
     with cf.ThreadPoolExecutor(max_workers=4) as ex:
